@@ -405,6 +405,9 @@ func main() {
 			w.recheck("after the calls of " + cr.name)
 		}()
 	}
+	if mon.Selected("getters") {
+		globalGetters(c, w)
+	}
 	if mon.Selected("small-fields") {
 		smallFields(c, w)
 		smallFields2(c, w)
